@@ -66,7 +66,11 @@ RUNTIME = {
                                 "build_sboms": [["cdx", "{}"], ["syft", "{}"]], "launch_sboms": [["spdx", "{}"]]}},
     "runtime-build-with-layer": {"build": {"kind": "pass", "ops": RICH, "store": {"k": "v"}}},
     "runtime-detect-plan": {"detect": {"kind": "pass_plan", "plan": [["provides", "a"], ["or"], ["requires", "b"]]}},
+    # a build over what an earlier build with other SBOM formats, a launch.toml and a store left behind
+    "runtime-build-over-previous": {"build": {"kind": "pass", "build_sboms": [["cdx", "{\"b\":2}"]], "launch_sboms": [["spdx", "{\"l\":2}"]]}},
 }
+PREVIOUS_OUTPUTS = {"launch.toml": "[[processes]]\ntype = \"old\"\ncommand = [\"o\"]\n", "store.toml": "[metadata]\nold = 1\n", "build.sbom.spdx.json": "{\"old\":1}",
+                    "build.sbom.cdx.json": "{\"old\":2}", "launch.sbom.syft.json": "{\"old\":3}", "launch.sbom.cdx.json": "{\"old\":4}"}
 SHORT_OPS = ["cached-new", "uncached-new", "write-sboms"]
 
 
@@ -121,6 +125,9 @@ def prepare(root, name):
     json.dump(script, open(s, "w"))
     open(os.path.join(root, "buildpack", "buildpack.toml"), "w").write('api = "0.10"\n\n[buildpack]\nid = "verif/vb"\nversion = "1.2.3"\n\n[[targets]]\nos = "linux"\n')
     open(os.path.join(root, "plan-in.toml"), "w").write("")
+    if name == "runtime-build-over-previous":
+        for rel, data in PREVIOUS_OUTPUTS.items():
+            open(os.path.join(root, "layers", rel), "w").write(data)
     env.update({"CNB_BUILDPACK_DIR": os.path.join(root, "buildpack"), "VB_SCRIPT": s, "CNB_TARGET_OS": "linux", "CNB_TARGET_ARCH": "amd64",
                 "CNB_TARGET_DISTRO_NAME": "u", "CNB_TARGET_DISTRO_VERSION": "1"})
     phase = "detect" if "detect" in name else "build"
@@ -228,7 +235,7 @@ def run(ctx):
             raise Machinery(f"{b} not built")
     self_test(ctx.scratch)
     names = list(OPS) + list(RUNTIME)
-    errnos = ["EIO", "EACCES", "ENOSPC"] if ctx.thorough else ["EIO"]
+    errnos = ["EIO", "EACCES", "ENOSPC"] if ctx.thorough else ["EIO", "EACCES"]
     if ctx.replay:
         rp = json.load(open(ctx.replay))["replay"]
         names = [rp["op"]]
